@@ -116,6 +116,57 @@ def streamOK (lat : Int) : Int → List SEv → Prop
   | m, .ev t :: s => streamOK lat (max m t) s
   | m, .wm v :: s => v = m - (lat + 1) ∧ streamOK lat m s
 
+/-! ### several operators: keyed events are routed, watermarks are broadcast -/
+
+/-- like `REv`, with the index of the operator each keyed event is routed to -/
+inductive REvK where
+  | events (kts : List (Nat × Int))
+  | tick
+deriving Repr
+
+def REvK.erase : REvK → REv
+  | .events kts => .events (kts.map (·.2))
+  | .tick => .tick
+
+/-- what `sendOperatorEvent` hands to the operator cluster: `(some j, ev t)` goes to operator `j`'s batcher,
+`(none, wm v)` to every operator's batcher (the same stamped watermark) -/
+def sentTagged (w : Watermarker) : List REvK → List (Option Nat × SEv)
+  | [] => []
+  | .events kts :: es =>
+    kts.map (fun kt => (some kt.1, SEv.ev kt.2)) ++ sentTagged ((kts.map (·.2)).foldl Watermarker.advanceTime w) es
+  | .tick :: es => (none, SEv.wm w.current) :: sentTagged w es
+
+/-- what reaches operator `j`'s batcher -/
+def streamOf (j : Nat) (s : List (Option Nat × SEv)) : List SEv :=
+  (s.filter fun p => p.1 == none || p.1 == some j).map (·.2)
+
+def sentPrefixK : Nat → List REvK → List REvK
+  | _, [] => []
+  | 0, .events _ :: _ => []
+  | r + 1, .events kts :: es => .events kts :: sentPrefixK r es
+  | r, .tick :: es => .tick :: sentPrefixK r es
+
+def rawCountK : List REvK → Nat
+  | [] => 0
+  | .events _ :: es => rawCountK es + 1
+  | .tick :: es => rawCountK es
+
+/-- what operator `j` has received (whole batches of its own batcher), the runner's watermarker being `w` when the
+deployment started (it is created once per runner and survives `HandleDeploy`) -/
+def deliveredTo (n : Nat) (w : Watermarker) (evs : List REvK) (j : Nat) : List SEv :=
+  let b := batchSize n
+  let s := streamOf j (sentTagged w (sentPrefixK (rawCountK evs / b * b) evs))
+  s.take (s.length / b * b)
+
+/-- the watermarker after everything that could be sent was sent (the state a redeployment of the runner starts from) -/
+def stateAfterSent (n : Nat) (w : Watermarker) (evs : List REvK) : Watermarker :=
+  runnerState w ((sentPrefixK (rawCountK evs / batchSize n * batchSize n) evs).map REvK.erase)
+
+def watermarksOf : List SEv → List Int
+  | [] => []
+  | .ev _ :: s => watermarksOf s
+  | .wm v :: s => v :: watermarksOf s
+
 /-! ### upstream map and composite watermark of `TimerRegistry` -/
 
 /-- `map[string]time.Time` as an association list with unique keys (iteration order is irrelevant: only the
